@@ -592,6 +592,16 @@ func VerifC12Step() {
 		vReach("end")
 		return
 	}
+	if me := st.Me(); me != nil {
+		vObserve("me", me.Nick+"\x00"+me.Ident+"\x00"+me.Host+"\x00"+me.Name)
+	}
+	for j := 0; j < vNC; j++ {
+		if m.cOn[j] {
+			if ch := st.GetChannel(m.cName[j]); ch != nil {
+				vObserve("chan", ch.Name+"\x00"+ch.Topic+"\x00"+ch.Modes.Key)
+			}
+		}
+	}
 	vAgree(st, m, extra)
 	vReach("end")
 }
